@@ -77,12 +77,12 @@ namespace PugiXmlExtensions
 	}
 
 	template <typename T, std::enable_if_t<std::is_arithmetic_v<T>, int> = 0>
-	bool LoadValue(const pugi::xml_node& node, T& value, const SerializationOptions& serializationOptions)
+	bool LoadValue(const pugi::char_t* strValue, T& value, const SerializationOptions& serializationOptions)
 	{
 		try
 		{
 			// Empty node is treated as Null
-			if (const pugi::char_t* strValue = node.text().as_string(nullptr))
+			if (strValue)
 			{
 				value = Convert::To<T>(strValue);
 				return true;
@@ -94,7 +94,7 @@ namespace PugiXmlExtensions
 			if (serializationOptions.overflowNumberPolicy == OverflowNumberPolicy::ThrowError)
 			{
 				throw SerializationException(SerializationErrorCode::Overflow,
-					std::string("The size of target field is not sufficient to deserialize number: ") + node.text().as_string());
+					std::string("The size of target field is not sufficient to deserialize number: ") + strValue);
 			}
 		}
 		catch (...)
@@ -102,10 +102,16 @@ namespace PugiXmlExtensions
 			if (serializationOptions.mismatchedTypesPolicy == MismatchedTypesPolicy::ThrowError)
 			{
 				throw SerializationException(SerializationErrorCode::MismatchedTypes,
-					std::string("The type of target field does not match the value being loaded: ") + node.text().as_string());
+					std::string("The type of target field does not match the value being loaded: ") + strValue);
 			}
 		}
 		return false;
+	}
+
+	template <typename T, std::enable_if_t<std::is_arithmetic_v<T>, int> = 0>
+	bool LoadValue(const pugi::xml_node& node, T& value, const SerializationOptions& serializationOptions)
+	{
+		return LoadValue(node.text().as_string(nullptr), value, serializationOptions);
 	}
 
 	inline bool LoadValue(const pugi::xml_node& node, std::nullptr_t&, const SerializationOptions&) {
@@ -313,32 +319,9 @@ public:
 				return std::is_null_pointer_v<T>;
 			}
 
-			if constexpr (std::is_same_v<T, bool>) {
-				value = attr.as_bool();
-			}
-			else if constexpr (std::is_integral_v<T>)
-			{
-				if constexpr (std::is_same_v<T, int64_t>) {
-					value = attr.as_llong();
-				}
-				else if constexpr (std::is_same_v<T, uint64_t>) {
-					value = attr.as_ullong();
-				}
-				else if constexpr (std::is_unsigned_v<T>) {
-					value = static_cast<T>(attr.as_uint());
-				}
-				else {
-					value = static_cast<T>(attr.as_int());
-				}
-			}
-			else if constexpr (std::is_floating_point_v<T>)
-			{
-				if constexpr (std::is_same_v<T, float>) {
-					value = attr.as_float();
-				}
-				else if constexpr (std::is_same_v<T, double>) {
-					value = attr.as_double();
-				}
+			// Attribute values are converted with range checking, according to the overflow and mismatched types policies
+			if constexpr (std::is_arithmetic_v<T>) {
+				return PugiXmlExtensions::LoadValue(attr.value(), value, this->GetOptions());
 			}
 			return true;
 		}
